@@ -62,9 +62,9 @@ type c13Snap struct {
 }
 
 type c13 struct {
-	r  *Run
-	f  *Fix
-	tr int // traces started
+	r     *Run
+	f     *Fix
+	tr    int // traces started
 	onFix int
 
 	// configuration of the current trace
@@ -109,7 +109,7 @@ func c13Int(s string) math.Int {
 	return v
 }
 func c13Raw(d math.LegacyDec) string { return d.BigInt().String() }
-func p10(n int) math.Int           { return math.NewIntWithDecimal(1, n) }
+func p10(n int) math.Int             { return math.NewIntWithDecimal(1, n) }
 
 func (c *c13) k() *irokeeper.Keeper { return c.f.App.IROKeeper }
 
@@ -614,8 +614,9 @@ func (c *c13) afterTrade(kind string, ai int, a sdk.AccAddress, pb irotypes.Plan
 		if cost.GT(spend) {
 			c.viol("C13/exact_spend/cost-exceeds-spend", fmt.Sprintf("L=%d spend %s granted %s tokens which cost %s", c.L, spend, t, cost))
 		}
-		if cost.LT(net.Sub(c13Tol(c.L, net))) {
-			c.viol("C13/exact_spend/granted-tokens-worth-less-than-spend", fmt.Sprintf("L=%d spend %s (net of fee %s) granted %s base tokens which cost only %s (tolerance %s)", c.L, spend, net, t, cost, c13Tol(c.L, net)))
+		tol := c13Tol(c.L, net).Add(c13SafeCost(c.curve, pa.SoldAmt, pa.SoldAmt.AddRaw(1)).AddRaw(1))
+		if cost.LT(net.Sub(tol)) {
+			c.viol("C13/exact_spend/granted-tokens-worth-less-than-spend", fmt.Sprintf("L=%d spend %s (net of fee %s) granted %s base tokens which cost only %s (tolerance %s)", c.L, spend, net, t, cost, tol))
 		}
 	}
 	// round trip: consecutive trades of one trader that bring sold back to an earlier value of the run
@@ -640,11 +641,13 @@ func (c *c13) afterTrade(kind string, ai int, a sdk.AccAddress, pb irotypes.Plan
 }
 
 // c13Tol: rounding tolerance of the exact-spend clause, in liquidity base units: Newton's epsilon
-// (10^-12 display units, absolute or relative), truncations, and one base unit of the token.
+// (10^-12 display units, absolute or relative; times 3 = 1 + the largest curve exponent, which is how
+// much a correction of the token amount by epsilon/price can move the cost) and truncations.  The
+// callers add the price of one base unit of the token (token amounts are integral).
 func c13Tol(L int, net math.Int) math.Int {
 	t := math.NewInt(3).Add(net.Quo(p10(11)))
 	if L > 12 {
-		t = t.Add(p10(L - 12))
+		t = t.Add(p10(L - 12).MulRaw(3))
 	}
 	return t
 }
@@ -742,28 +745,20 @@ func (c *c13) execSweep(fl []string) (string, string) {
 		if err != nil || !ok {
 			return
 		}
-		t18 := irotypes.ScaleToBase(x, 18)
+		_ = x
 		orc = append(orc, c.oracleI(curve, sold), c.oracleI(curve, sold.Add(t)))
-		if !t18.Equal(t) {
-			orc = append(orc, c.oracleI(curve, sold.Add(t18)))
-		}
-		cost, cost18 := curve.Cost(sold, sold.Add(t)), curve.Cost(sold, sold.Add(t18))
-		out = fmt.Sprintf("%s %s %s %s", t, cost, t18, cost18)
+		cost := curve.Cost(sold, sold.Add(t))
+		out = fmt.Sprintf("%s %s", t, cost)
 		line := strings.Join(fl, " ")
 		if cost.GT(net) {
-			c.r.Violate("C13/exact_spend/cost-exceeds-spend", fmt.Sprintf("sweep L=%d: net spend %s buys %s tokens which cost %s", l, net, t, cost), line)
-		}
-		if cost.LT(net.Sub(c13Tol(l, net))) {
-			c.r.Violate("C13/exact_spend/granted-tokens-worth-less-than-spend", fmt.Sprintf("sweep L=%d: net spend %s buys %s base tokens which cost only %s; scaled by the supply decimals: %s tokens costing %s", l, net, t, cost, t18, cost18), line)
-		}
-		// the Newton contract itself, at the correct scale (monitoring of the conditional theorems' hypothesis)
-		if cost18.GT(net) {
 			c.r.Hit("newton/overshoot")
-			c.r.Violate("C13/newton_contract/overshoot", fmt.Sprintf("sweep L=%d M=%s N=%s C=%s sold %s: tokens %s (18-dec scale) cost %s > net spend %s", l, curve.M, curve.N, curve.C, sold, t18, cost18, net), line)
+			c.r.Violate("C13/exact_spend/cost-exceeds-spend", fmt.Sprintf("sweep L=%d M=%s N=%s C=%s sold %s: net spend %s buys %s tokens which cost %s", l, curve.M, curve.N, curve.C, sold, net, t, cost), line)
+			c.r.Violate("C13/newton_contract/overshoot", fmt.Sprintf("sweep L=%d M=%s N=%s C=%s sold %s: tokens %s cost %s > net spend %s", l, curve.M, curve.N, curve.C, sold, t, cost, net), line)
 		}
-		if cost18.LT(net.Sub(c13Tol(l, net))) {
+		tol := c13Tol(l, net).Add(c13SafeCost(curve, sold.Add(t), sold.Add(t).AddRaw(1)).AddRaw(1))
+		if cost.LT(net.Sub(tol)) {
 			c.r.Hit("newton/undershoot")
-			c.r.Violate("C13/newton_contract/undershoot", fmt.Sprintf("sweep L=%d M=%s N=%s C=%s sold %s: tokens %s (18-dec scale) cost %s < net spend %s - tol", l, curve.M, curve.N, curve.C, sold, t18, cost18, net), line)
+			c.r.Violate("C13/exact_spend/granted-tokens-worth-less-than-spend", fmt.Sprintf("sweep L=%d M=%s N=%s C=%s sold %s: net spend %s buys %s base tokens which cost only %s (tolerance %s)", l, curve.M, curve.N, curve.C, sold, net, t, cost, tol), line)
 		}
 	}()
 	suffix := ""
@@ -821,7 +816,7 @@ func TestC13(t *testing.T) {
 // first in every run so that each known finding is re-derived on the real code whatever the seed.
 func c13Corpus(c *c13) {
 	for _, tr := range [][]string{
-		// F5 — exact spend with 6-decimals liquidity (fixed price 1): tokens scaled by the liquidity decimals
+		// F5 (repaired) — exact spend with 6-decimals liquidity (fixed price 1): regression witness
 		{"reset 20000000000000000 1000000000000000000 400000000000000000 0 0 0 3 1000000000000000000000 6",
 			"fund 0 1000000000000", "fund 1 1000000000000",
 			"create 1000000000000000000000 0 1000000000000000000 1000000000000000000 6 1 0 3600 500000000000000000 3 0",
@@ -831,12 +826,12 @@ func c13Corpus(c *c13) {
 			"fund 0 2000000000000000000000", "fund 1 1000000000000000000000",
 			"create 1000000000000000000000000 0 1000000000000000000 1000000000000000000000 18 1 0 3600 500000000000000000 3 0",
 			"bes 1 1000 1", "sell 1 980 1"},
-		// F16 — vesting total 3·10^18 over 3 ns, claim after 2 ns
+		// F16 (repaired) — vesting total 3·10^18 over 3 ns, claim after 2 ns: regression witness
 		{"reset 20000000000000000 1000000000000000000 400000000000000000 0 0 0 3 1000000000000000000000 18",
 			"fund 0 1000000000000000000000", "fund 1 1000000000000000000000",
 			"create 1000000000000000000000 0 1000000000000000000 1000000000000000000 18 1 0 3600 500000000000000000 3 0",
 			"buy 1 5000000000000000000 1000000000000000000000", "settle 1000000000000000000000", "time 2", "claimv 0"},
-		// creation fee (6 tokens) above the sellable maximum (5 tokens)
+		// creation fee (6 tokens) above the sellable maximum (5 tokens): must be rejected (repaired)
 		{"reset 20000000000000000 6000000000000000000 400000000000000000 0 0 0 3 10000000000000000001 18",
 			"fund 0 1000000000000000000000",
 			"create 10000000000000000001 0 1000000000000000000 1000000000000000000 18 1 0 3600 1000000000000000000 3 0"},
